@@ -17,6 +17,7 @@ from mc import alphabet as A
 
 PROPERTY = "C08"
 ASSUMPTIONS = [
+    "thorough tier: three calls deep with request lists of length <=2, <=1, <=1 (a full <=2,<=2,<=1 search is about 1e8 transitions and was not completed)",
     "temperatures requested for insertion come from a finite alphabet derived from the table "
     "(above/below the range, 1/4 1/2 3/4 of every interval, every existing row, existing +-0.4 tol and +-3 tol)",
     "initial tables (one of them with a 0.5 mK interval) are built by the real problem_table_algorithm / get_process_heat_cascade / get_additional_GCCs from lattice streams, "
@@ -232,7 +233,7 @@ def explore(tier, inst, shard, nshards):
     res.state_keys = set()
     res.nt_keys = set()
     depth = 2 if tier == "quick" else 3
-    len_by_depth = {"quick": [2, 1], "thorough": [2, 2, 1]}[tier]
+    len_by_depth = {"quick": [2, 1], "thorough": [2, 1, 1]}[tier]
     work = 0
     for ti, desc in enumerate(initial_tables(inst, tier)):
         pt0 = build(desc)
@@ -286,7 +287,7 @@ def explore(tier, inst, shard, nshards):
                     res.outcomes.add(jhash([round(float(x), 6) for x in new_pt.data[:, ref.idx["T"]]]))
                     if len(res.samples) < 2:
                         res.samples.append({"table": desc, "history": [[cands[i] for i in e] for e in h2], "rows_after": len(new_pt)})
-                    if not problems and level + 1 < depth and (tier == "thorough" or len(ev) <= len_by_depth[level]):
+                    if not problems and level + 1 < depth and len(ev) <= len_by_depth[level]:
                         nxt.append((h2, new_pt, present2))      # quick: states reached by a long request are checked but not expanded
             frontier = nxt
     return res
@@ -323,6 +324,6 @@ SUBCHECKS = {
         explore=explore,
         replay=replay,
         bound=lambda tier: "depth 2 calls, request lists of length <=2 then <=1, plus at every level all ordered triples of each interval's 4 interior candidates and two mixed long requests (not expanded further)" if tier == "quick"
-        else "depth 3 calls, request lists of length <=2, <=2, <=1, plus the long requests at every level (expanded)",
+        else "depth 3 calls, request lists of length <=2, <=1, <=1, plus the long requests at every level (not expanded further)",
     )
 }
